@@ -37,6 +37,7 @@ FUNCTION_NAMES = {'exp', 'log', 'max', 'min', 'abs', 'float', 'int'}
 
 def strata(tier):
     yield 'S1', programs.s1
+    yield 'SV', programs.sv
     yield 'S2', programs.s2
     yield 'S3', (lambda: programs.s3(5)) if tier == 'quick' else (lambda: programs.s3(6))
     yield 'S4', (lambda: programs.s4(8)) if tier == 'quick' else (lambda: programs.s4(None))
@@ -45,7 +46,7 @@ def strata(tier):
 def blocks(tier, seed):
     out = []
     for name, _ in strata(tier):
-        nb = {'S1': 8, 'S2': 16, 'S3': 64 if tier == 'quick' else 256, 'S4': 32 if tier == 'quick' else 96}[name]
+        nb = {'S1': 8, 'SV': 2, 'S2': 16, 'S3': 64 if tier == 'quick' else 256, 'S4': 32 if tier == 'quick' else 96}[name]
         for b in range(nb):
             out.append({'stratum': name, 'b': b, 'nb': nb})
     return out
@@ -87,11 +88,11 @@ def equation_paths(symbols, names, span_len, t):
     return sorted(symrec.explore(once), key=repr)
 
 
-def numeric_compare(p, Model, names, L, t, vec):
+def numeric_compare(p, Model, names, L, t, vec, span=None, label_pos=None):
     """Bit-exact: real _evaluate on float data vs CPython evaluation of the reference trees."""
     rng = np.random.RandomState(1234 + vec)
     data = {n: (rng.uniform(0.2, 1.9, L) * (1 if vec == 0 else rng.choice([-1.0, 1.0], L))) for n in names}
-    m = Model(range(L))
+    m = Model(range(L) if span is None else span)
     for n in names:
         m[n] = data[n].copy()
     cells = {(n, i): np.float64(data[n][i]) for n in names for i in range(L)}
@@ -103,6 +104,8 @@ def numeric_compare(p, Model, names, L, t, vec):
             exc_m = type(e).__name__
         for (ln, lo), code, phmap in p.ref_eqs():
             env = symrec.ref_env()
+            env['t'] = t
+            env['self'] = symrec._SelfView(cells, label_pos or {})
             for ph, (n, o) in phmap.items():
                 env[ph] = cells[(n, t + o)]
             try:
@@ -152,16 +155,18 @@ def check_program(p):
     L = lags + leads + 2
     ref = p.ref_eqs()
     wrote = False
+    span = range(2000, 2000 + L) if p.stratum == 'SV' else range(L)
+    label_pos = {2001: 1} if p.stratum == 'SV' else None
     for t in range(lags, L - leads):
-        a = symrec.run_model(Model, range(L), t)
-        b = symrec.run_ref(ref, list(Model.NAMES), L, t)
+        a = symrec.run_model(Model, span, t)
+        b = symrec.run_ref(ref, list(Model.NAMES), L, t, label_pos)
         if a != b:
             first_a = next((x for x in a if x not in b), a[:1])
             first_b = next((x for x in b if x not in a), b[:1])
             out.append(('semantics:' + fk, _short(first_b), _short(first_a), 'one evaluation pass differs from the equations as written (t=%d)' % t))
             break
         wrote = wrote or any(w for _, w in a if isinstance(w, tuple) and w and w[0] != 'EXC')
-        if any(n in ('t', 'self', 'np') for n in names):
+        if any(n in ('t', 'self', 'np') for n in names) or "self['" in script:
             c = None  # the equation text 't[t]' / 'self[t]' cannot be bound by the harness: only the code is judged
         else:
             try:
@@ -174,7 +179,7 @@ def check_program(p):
     if not out:
         t = lags
         for vec in (0, 1):
-            d = numeric_compare(p, Model, list(Model.NAMES), L, t, vec)
+            d = numeric_compare(p, Model, list(Model.NAMES), L, t, vec, span, label_pos)
             if d is not None:
                 out.append(('numeric:' + fk, d[1], d[2], 'bit-exact numeric cross-check differs (%s)' % d[0]))
                 break
